@@ -148,3 +148,36 @@ def boundary_cps(ctx, stride=None):
     if stride:
         cps.update(range(0, 0x110000, stride))
     return sorted(c for c in cps if 0 <= c < 0x110000 and not (0xD800 <= c <= 0xDFFF))
+
+
+def long_strings(ctx, alphabet, count, lo=20, hi=300):
+    """random LONG strings (the small-scope enumerations stop at a handful of characters; the theorems have no length
+    bound, so the correspondence must not have an obvious one either): plain random, long runs of one character,
+    a short interesting core buried in long filler, and many combining marks in a row"""
+    rng = ctx.rng
+    out = []
+    filler = [0x61, 0x62, 0xE9, 0x65E5]
+    for k in range(count):
+        n = rng.randrange(lo, hi)
+        mode = k % 4
+        if mode == 0:
+            out.append([rng.choice(alphabet) for _ in range(n)])
+        elif mode == 1:
+            c = rng.choice(alphabet)
+            s = [rng.choice(filler)] * n
+            for _ in range(rng.randrange(1, 4)):
+                i = rng.randrange(n)
+                s[i:i] = [c] * rng.randrange(1, 20)
+            out.append(s)
+        elif mode == 2:
+            core = [rng.choice(alphabet) for _ in range(rng.randrange(1, 5))]
+            pre = [rng.choice(filler) for _ in range(rng.randrange(0, n))]
+            post = [rng.choice(filler) for _ in range(rng.randrange(0, n))]
+            out.append(pre + core + post)
+        else:
+            marks = [0x301, 0x308, 0x323, 0x327, 0x5B0, 0x64B, 0x94D]
+            s = [rng.choice(alphabet)]
+            for _ in range(n):
+                s.append(rng.choice(marks) if rng.random() < 0.7 else rng.choice(alphabet))
+            out.append(s)
+    return out
